@@ -104,7 +104,8 @@ def check(prog, res, tier):
                 # unrolled mode: buffer values are not in the int snapshot; use setattr events
                 sets = [e for e in p.events if e.kind == 'setattr' and e.data['attr'] == 'buffer' and first < e.seq <= last]
                 if not sets:
-                    fails.append(definite('refill iteration does not extend the buffer'))
+                    # the iteration that meets the end of the data reads nothing and adds nothing
+                    fails += need_eq0(st, block.length(), 'a refill iteration reads a non-empty block but does not extend the buffer', r.node)
                     continue
                 pre, post = sets[-1].data['old'], sets[-1].data['value']
             if not (isinstance(pre, SeqV) and isinstance(post, SeqV)):
